@@ -428,8 +428,9 @@ func (ex *Exec) strEqLit(a *Term, s string) *Term {
 
 // wfStr assumes well-formedness of a string value: len >= 0 and bytes in 0..255.
 func (ex *Exec) wfStr(s *Term) {
-	// bytes are constrained to 0..255 where they are read (byteRange)
-	ex.assume(Ge(SLen(s), IntLit(0)))
+	// bytes are constrained to 0..255 where they are read (byteRange);
+	// assumption: no string is longer than 2^32 bytes
+	ex.assume(And(Ge(SLen(s), IntLit(0)), Le(SLen(s), IntLit(4294967296))))
 }
 
 // byteRange: a byte read from a string is in 0..255.
@@ -520,7 +521,7 @@ func (ex *Exec) load(st *State, l *Loc) Val {
 		return Val{T: Select(h, l.Obj), Ty: l.Ty}
 	case locElem:
 		s := sortOf(l.Ty)
-		h := ex.getHeap(st, heapArrName(s), ArrS(SInt, ArrS(SInt, s)))
+		h := ex.getHeap(st, heapArrName(l.Ty), ArrS(SInt, ArrS(SInt, s)))
 		return Val{T: Select(Select(h, l.Obj), l.Idx), Ty: l.Ty}
 	case locGlobal:
 		s := sortOf(l.Ty)
@@ -543,7 +544,7 @@ func (ex *Exec) store(st *State, l *Loc, v Val) {
 		ex.setHeap(st, l.Heap, ex.named(l.Heap, Store(h, l.Obj, v.T)))
 	case locElem:
 		s := sortOf(l.Ty)
-		name := heapArrName(s)
+		name := heapArrName(l.Ty)
 		h := ex.getHeap(st, name, ArrS(SInt, ArrS(SInt, s)))
 		if v.T == nil {
 			ex.fail("store of non-scalar into element")
@@ -921,7 +922,7 @@ func (ex *Exec) setupEntry() {
 	// function-level ghost variables
 	for _, c := range ex.spec.Clauses {
 		if c.Kind == "ghost" || c.Kind == "bind" {
-			t := ex.V.specType(c.Type, ex.pkg)
+			t := ex.V.specType(strings.TrimPrefix(c.Type, "before:"), ex.pkg)
 			var v Val
 			if c.Kind == "ghost" && c.Expr != nil {
 				v = ex.evalSpec(c.Expr, ex.envAt(ex.init, nil))
